@@ -9,30 +9,35 @@ from tools.harness import c03_pairs
 PROP = 'C03'
 
 MANIFEST = dict(
-    technique='Coq proof: every target is the one DSDL wire specification composed with its float16 rounding rule, so round trip, '
-              're-serialization, cross-target and option independence are corollaries of the specification-level theorems; '
-              'oracle-free pairwise comparison of the real generated C / C++ / Python codecs under the option matrix on the same '
-              'requests, own-chain round trips, and comparison with the extracted per-target observables',
-    text='Theorems in coq/theories/Properties/C03.v (see design_notes/C03.md): round trip des(ser v) = cast v per target, '
-         're-serialization ser(des(ser v)) = ser v (enc_cast_idem, using pack(unpack h) = h on float16 images from Prims/F16Thm.v), '
-         'stability of des-ser-des, C = C++ and all deserializers equal, Python = C whenever no float16 field holds an exact tie '
-         '(f16 tie refuted by the witness 0x3F801000), option independence (the observables take an option record they provably do not '
-         'use; the code walker is independent of the primitive record).  Tie: random valid namespaces (dsdlgen) + regression corpus + '
-         'fixed tie/odd-width types, values and byte strings from valgen; ALL builds (C any/little/big x asserts; C++ 14/17/20/17-pmr x '
-         'asserts; Python) answer the same requests and are compared pairwise with each other, each build runs its own '
-         'ser->des->ser and des->ser->des chains, and every answer is compared with the extracted observable of its target.',
-    note='Trusted: Coq kernel; extraction (ExtrOcamlBasic only) + ocaml/c03_driver.ml; pydsdl front end (astdump.py); harness drivers. '
-         'The Python rounding rule (ties to even) is a definition (Spec/TargetsC03.v f16_pack_rne) validated against struct.pack on '
-         'every run.  Python observability limits (no consumed size, one error class, setters reject out-of-range values) are respected: '
-         'such requests are counted as not comparable for that target.  Big-endian hosts are not covered.',
+    technique='Coq proof about code-shaped observables: the generated (de)serializers of C, C++ and Python are modelled as walkers over '
+              'the SHIPPED primitive models (nunavutSetUxx/GetUxx in both endianness renderings, bitspan members, Python Serializer with an '
+              'explicit round-half-even float16 leaf) wrapped in the epilogue assertions; equality with the wire specification, cross-target '
+              'agreement, option independence, round trip, re-serialization and des-ser-des stability are DERIVED from the instance '
+              'refinement theorems; oracle-free pairwise comparison of the real generated codecs under the option matrix, own-chain round '
+              'trips, comparison with the extracted specification and with the extracted code-shaped observables',
+    text='Theorems in coq/theories/Properties/C03.v (see design_notes/C03.md), proofs in Codec/ObsC03Thm.v, Spec/WireThmC03.v, '
+         'Spec/TargetPreThm.v: obs = spec (from c_/cpp_/py_walk_*_refines), assertions never fire, round trip through any two targets, '
+         'reser, value-level des-ser-des (partial: float16 NaN payloads; refuted in general), C = C++ on every storable value, all targets '
+         'equal when no float16 field holds an exact tie (refuted by 0x3F801000 computed through the primitive models), option independence, '
+         'enc_cast_idem, cast values hold no tie / fit storage, Python leaf = spec of the pre-adjusted value, RNE on all 31744 ties.  Tie: '
+         'random valid namespaces (dsdlgen) + regression corpus + fixed tie/odd-width types; ALL builds (C any/little/big x asserts; C++ '
+         '14/17/20/17-pmr x asserts; Python) answer the same requests and are compared pairwise, each build runs its own ser->des->ser and '
+         'des->ser->des chains, every answer is compared with the extracted specification and a sample with the extracted obs_ser/obs_des '
+         'under the build\'s own option flags.',
+    note='Trusted: Coq kernel; extraction (ExtrOcamlBasic only) + ocaml/c03_driver.ml; pydsdl front end (astdump.py); harness drivers; the '
+         'primitive models of Prims/*.v (C14).  Side conditions of the theorems: whole-byte buffers below 2^64 bits, values within the '
+         'generated storage types (storage_ok), top-level composite.  C++ std / allocator flavour / array container do not reach the models '
+         '(pairwise runs only).  Python observability limits (no consumed size, one error class, setters reject out-of-range values) are '
+         'respected: such requests are counted as not comparable for that target.  Big-endian hosts are not covered.',
     design='§5 C03')
 
 TRUSTED = [
     'extraction: Require Extraction ExtrOcamlBasic only; OCaml 4.13.1; ocaml/c03_driver.ml (copy of codec_driver.ml + pser/tief/nanc)',
     'pydsdl 1.25 front end: the type JSON (tools/harness/codec/astdump.py) is what nunavut itself is handed',
     'Prims/F16.v float16 conversion model and Prims/F16Thm.v / F16ArithThm.v theorems (C14)',
-    'Spec/TargetsC03.v: Python float16 rounding (struct.pack "<e": nearest, ties to even) stated relative to the C rule; validated '
-    'against the generated Python on every run (tie strata)',
+    'Spec/TargetPre.v py_enc_prim: explicit model of the Python value conversions (clamp, two\'s complement, mask, struct.pack "<e" = '
+    'nearest, ties to even); validated against the generated Python on every run (tie strata, oser py)',
+    'Prims/CPrims.v, CppPrims.v, PyPrims.v primitive models and Codec/Instances*.v (C14 / b-refine): the observables run over them',
     'the layout mask (Spec/Wire.v mask_body) is used only to LOCATE float fields when two answers differ, to accept NaN-vs-NaN',
     'harness: generated per-namespace drivers (tools/harness/codec/target_*.py), gcc/g++/clang, CPython 3.12 + NumPy',
 ]
